@@ -21,6 +21,8 @@ const BINCODE_CONFIG: bincode::config::Configuration<bincode::config::LittleEndi
 
 type Ws = tungstenite::WebSocket<tungstenite::stream::MaybeTlsStream<std::net::TcpStream>>;
 
+static SCRATCH: std::sync::OnceLock<String> = std::sync::OnceLock::new();
+
 // ---------------------------------------------------------------- DLT files
 /// writes `n` plain storage-header messages (ecu ECUR, one per second, strictly increasing times)
 fn write_dlt(path: &Path, n: u32, start_index: u32) {
@@ -81,6 +83,16 @@ const HUGE_MSGS: u32 = 1_000_000;
 /// far more than the final channel (512k) takes
 const DENSE_MSGS: u32 = 2_200_000;
 
+fn write_zip(path: &Path, members: &[(&str, Vec<u8>)]) {
+    let mut z = zip::ZipWriter::new(std::fs::File::create(path).unwrap());
+    let opt = zip::write::SimpleFileOptions::default().compression_method(zip::CompressionMethod::Deflated);
+    for (name, data) in members {
+        z.start_file(*name, opt).unwrap();
+        z.write_all(data).unwrap();
+    }
+    z.finish().unwrap();
+}
+
 struct Files {
     dir: PathBuf,
 }
@@ -94,12 +106,36 @@ impl Files {
         std::fs::write(dir.join("empty.dlt"), b"").unwrap();
         std::fs::write(dir.join("bad.zip"), b"this is not a zip").unwrap();
         std::fs::create_dir_all(dir.join("sub")).unwrap();
+        // archives (the `open` path with a background extraction)
+        let rd = |n: &str| std::fs::read(dir.join(n)).unwrap();
+        write_dlt(&dir.join("c.dlt"), 3, 15);
+        write_zip(
+            &dir.join("arch.zip"),
+            &[("logs/a.dlt", rd("a.dlt")), ("logs/b.dlt", rd("b.dlt")), ("readme.txt", b"no dlt in here\n".to_vec()), ("logs/empty.dlt", vec![]), ("deep/x/c.dlt", rd("c.dlt"))],
+        );
+        // slow to extract: four members of 150 000 messages each
+        let big = rd("big.dlt");
+        write_zip(&dir.join("slow.zip"), &[("big1.dlt", big.clone()), ("big2.dlt", big.clone()), ("big3.dlt", big.clone()), ("big4.dlt", big)]);
+        // member names that point outside / are odd
+        write_zip(
+            &dir.join("hostile.zip"),
+            &[("../evil.dlt", rd("a.dlt")), ("/abs.dlt", rd("b.dlt")), ("sp ace.dlt", rd("c.dlt")), ("a\\b.dlt", rd("c.dlt")), ("\u{fc}n\u{ef}.dlt", rd("c.dlt")), ("ok/fine.dlt", rd("a.dlt"))],
+        );
+        // multi volume: arch.zip cut in two
+        let az = rd("arch.zip");
+        std::fs::write(dir.join("mv.zip.001"), &az[..az.len() / 2]).unwrap();
+        std::fs::write(dir.join("mv.zip.002"), &az[az.len() / 2..]).unwrap();
         Files { dir: dir.to_path_buf() }
     }
     /// replaces the @X placeholders of a frame template by paths
     fn subst(&self, s: &str) -> String {
         let p = |n: &str| self.dir.join(n).to_str().unwrap().to_string();
         s.replace("@BADZIP", &p("bad.zip"))
+            .replace("@ZA", &p("arch.zip"))
+            .replace("@ZS", &p("slow.zip"))
+            .replace("@ZH", &p("hostile.zip"))
+            .replace("@ZM", &p("mv.zip.001"))
+            .replace("@ZN", &p("nofile.zip"))
             .replace("@HUGE", &p("huge.dlt"))
             .replace("@DENSE", &p("dense.dlt"))
             .replace("@BIG", &p("big.dlt"))
@@ -176,6 +212,7 @@ enum Async {
     StreamInfo(u32),
     TextMsg(u32), // "stream:<id> msg(..)" text stream data
     Lifecycles(Vec<(u32, u32)>), // (lifecycle id, nr_msgs)
+    Progress(u32, u32),
     Other,
 }
 
@@ -198,6 +235,7 @@ fn classify_binary(d: &[u8]) -> Async {
             }
         }
         Ok((BinType::StreamInfo(si), _)) => Async::StreamInfo(si.stream_id),
+        Ok((BinType::Progress(p), _)) => Async::Progress(p.cur_progress, p.max_progress),
         Ok((BinType::Lifecycles(lcs), _)) => Async::Lifecycles(lcs.iter().map(|l| (l.id, l.nr_msgs)).collect()),
         _ => Async::Other,
     }
@@ -270,16 +308,21 @@ impl OrcS {
             x => panic!("orc kind {}", x),
         }
     }
-    fn coq(&self, nmsgs: u32) -> String {
+    fn coq(&self, nmsgs: u32, frame: &str) -> String {
         match self {
             OrcS::None => "o0".into(),
             OrcS::Open(None) => "(oo OpenErr)".into(),
-            OrcS::Open(Some((m, s, p))) => format!(
-                "(oo (OpenOk {} {} {}))",
-                ["CAll", "COnePass", "CNone"][*m as usize],
-                cbool(*s),
-                clist(&p.iter().map(|(n, c)| format!("({}, {})", cstr(n), cbool(*c))).collect::<Vec<_>>())
-            ),
+            OrcS::Open(Some((m, s, p))) => {
+                let (archive, nfiles, _) = open_facts(frame);
+                format!(
+                    "(oof (OpenOk {} {} {}) {} {})",
+                    ["CAll", "COnePass", "CNone"][*m as usize],
+                    cbool(*s),
+                    clist(&p.iter().map(|(n, c)| format!("({}, {})", cstr(n), cbool(*c))).collect::<Vec<_>>()),
+                    cbool(archive),
+                    nfiles
+                )
+            }
             OrcS::Stream(None) => "(os StreamErr)".into(),
             OrcS::Stream(Some((o, a, b, p, n, e, k))) => format!("(os (sk {} {} {} {} {} {} {}))", cbool(*o), a, b, p, n, e, k),
             OrcS::Id(b) => format!("(oi {} {})", cbool(*b), nmsgs),
@@ -294,6 +337,58 @@ impl OrcS {
             }
         }
     }
+}
+
+/// ground truth about an `open` body, derived from the file names of the frame (known generated files only):
+/// (archive path taken, number of files with a DLT message that end up in file_streams, their messages)
+fn open_facts(frame: &str) -> (bool, u32, u32) {
+    let v: Value = match serde_json::from_str(params_of(frame)) {
+        Ok(v) => v,
+        Err(_) => return (false, 0, 0),
+    };
+    let mut archive = false;
+    let (mut nfiles, mut nmsgs) = (0u32, 0u32);
+    if let Some(a) = v["files"].as_array() {
+        for f in a.iter().filter_map(|f| f.as_str()) {
+            let plain = |suffix: &str| f.ends_with(suffix) && !f.contains(".zip");
+            let (isarch, nf, nm) = if plain("/a.dlt") {
+                (false, 1, 10)
+            } else if plain("/b.dlt") {
+                (false, 1, 5)
+            } else if plain("/c.dlt") {
+                (false, 1, 3)
+            } else if plain("/big.dlt") {
+                (false, 1, 150_000)
+            } else if plain("/huge.dlt") {
+                (false, 1, HUGE_MSGS)
+            } else if plain("/dense.dlt") {
+                (false, 1, DENSE_MSGS)
+            } else if let Some(p) = f.find("/arch.zip") {
+                match &f[p + "/arch.zip".len()..] {
+                    "" | "!/**/*" | "!/*" => (true, 3, 18),
+                    "!/logs/*.dlt" | "!/logs/*" => (true, 2, 15),
+                    "!/**/c.dlt" | "!/deep/x/c.dlt" => (true, 1, 3),
+                    "!/logs/b.dlt" => (true, 1, 5),
+                    "/logs/a.dlt" | "!/logs/a.dlt" => (true, 1, 10),
+                    _ => (true, 0, 0),
+                }
+            } else if f.ends_with("/slow.zip") {
+                (true, 4, 600_000)
+            } else if f.ends_with("/hostile.zip") {
+                (true, 4, 19)
+            } else if f.ends_with("/mv.zip.001") {
+                (true, 3, 18)
+            } else if f.contains("/bad.zip") {
+                (true, 0, 0)
+            } else {
+                (false, 0, 0)
+            };
+            archive |= isarch;
+            nfiles += nf;
+            nmsgs += nm;
+        }
+    }
+    (archive, nfiles, nmsgs)
 }
 
 /// Coq term of type string
@@ -385,7 +480,9 @@ fn classify_reply(r: &str) -> Option<O> {
         let eid = |k: u128, id: u128| Some(leaf3(1, k, vec![O::L(id)]));
         if cmd == "open" {
             if arg.ends_with("is open. close first!") {
-                return e(0);
+                // the dump of file_streams: one `DltFileInfos {` per file
+                let dump = arg.rsplit_once("' failed as file(s) '").map_or("", |x| x.1);
+                return Some(leaf3(1, 0, vec![O::L(dump.matches("DltFileInfos {").count() as u128)]));
             }
             if arg.contains("' failed with '") && arg.ends_with("'!") {
                 return e(1);
@@ -472,7 +569,60 @@ struct Tracker {
     ever: Vec<u32>,         // every id ever returned
     nmsgs: u32,             // last FileInfo since the open
     closed_ok_before: bool, // the previous command was a successful close
+    paused: bool,
+    archive: bool,          // the open took the archive path
+    extract_done: bool,     // ... and the extraction result is known to have been taken over
+    exp_files: u32,         // files in file_streams (after the extraction)
+    exp_msgs: u32,          // messages of those files
+    got_progress: bool,     // a Progress frame was seen since the open
 }
+
+/// the state of the session model the next command meets (for the state x command coverage of the evidence)
+fn state_label(tr: &Tracker) -> String {
+    let base = if !tr.open {
+        "closed"
+    } else if tr.archive && !tr.extract_done {
+        if tr.exp_files == 0 {
+            "arch_no_streams"
+        } else {
+            "arch_extracting"
+        }
+    } else if tr.mode == 2 {
+        "collect_none"
+    } else if tr.mode == 1 {
+        if tr.paused {
+            "one_pass_paused"
+        } else {
+            "one_pass_running"
+        }
+    } else if tr.paused {
+        "paused"
+    } else if tr.nmsgs < tr.exp_msgs {
+        "parsing"
+    } else {
+        "parsed"
+    };
+    base.to_string()
+}
+fn cmd_label(frame: &str) -> &'static str {
+    match command_of(frame) {
+        "open" => "open",
+        "close" => "close",
+        "pause" => "pause",
+        "resume" => "resume",
+        "stream" => "stream",
+        "query" => "query",
+        "stop" => "stop",
+        "stream_change_window" => "stream_change_window",
+        "stream_binary_search" => "stream_binary_search",
+        "stream_search" => "stream_search",
+        "plugin_cmd" => "plugin_cmd",
+        "fs" => "fs",
+        _ => "unknown",
+    }
+}
+const ALL_STATES: &[&str] = &["closed", "arch_no_streams", "arch_extracting", "collect_none", "one_pass_paused", "one_pass_running", "paused", "parsing", "parsed"];
+const ALL_CMDS: &[&str] = &["open", "close", "pause", "resume", "stream", "query", "stop", "stream_change_window", "stream_binary_search", "stream_search", "plugin_cmd", "fs", "unknown"];
 
 /// the command word the dispatcher sees (text before the first space)
 fn command_of(frame: &str) -> &str {
@@ -488,9 +638,11 @@ fn params_of(frame: &str) -> &str {
 enum Ev {
     Msgs(u32),
     Done(u32),
+    Extracted(u32),
 }
 
 struct CmdResult {
+    state: String, // model state the command met (see state_label)
     pre: Vec<Ev>,
     nmsgs: u32,
     reply: Option<String>, // None: no reply (dead connection / timeout)
@@ -540,6 +692,17 @@ fn oracle_cmd(tr: &Tracker, cmd: &Cmd, reply: &str, cls: &Option<O>, viol: &mut 
         "open" => {
             if tr.open && is_ok {
                 fail("file_open_between_open_and_close", "second open succeeded while a file is open".into());
+            }
+            if tr.open && is_err {
+                if let Some(O::T(v)) = cls {
+                    if let (O::L(1), O::L(0), O::T(p)) = (&v[0], &v[1], &v[2]) {
+                        let shown = if let Some(O::L(n)) = p.first() { *n as u32 } else { u32::MAX };
+                        let ok = if tr.archive && !tr.extract_done { shown == 0 || shown == tr.exp_files } else { shown == tr.exp_files };
+                        if !ok {
+                            fail("state_consistent", format!("the refused open shows {} open file(s), the open context has {}", shown, tr.exp_files));
+                        }
+                    }
+                }
             }
             if !tr.open {
                 match &cmd.orc {
@@ -620,7 +783,15 @@ fn track(tr: &mut Tracker, cmd: &Cmd, cls: &Option<O>, viol: &mut Vec<(String, S
                 tr.mode = *m;
                 tr.plugins = p.clone();
             }
+            let (archive, nf, nm) = open_facts(&cmd.frame);
+            tr.archive = archive;
+            tr.extract_done = false;
+            tr.exp_files = nf;
+            tr.exp_msgs = nm;
+            tr.paused = tr.mode == 1;
+            tr.got_progress = false;
         }
+        1 => tr.paused = payload[0] == 1,
         2 => {
             tr.open = false;
             tr.live.clear();
@@ -669,6 +840,30 @@ const OPEN_OK: &[(&str, u8, bool, &[(&str, bool)])] = &[
     (r#"{"files":["@NOFILE","@A","@EMPTY"]}"#, 0, false, &[]),
     (r#" {"files" : ["@A"] , "unknown":1}"#, 0, false, &[]),
 ];
+// the archive path of open: answered ok at once, no file stream until the background extraction was taken over,
+// none at all if nothing usable is extracted (open_facts knows what each of them yields)
+const OPEN_ARCHIVE: &[(&str, u8, bool, &[(&str, bool)])] = &[
+    (r#"{"files":["@ZA"]}"#, 0, false, &[]),
+    (r#"{"files":["@ZA"],"sort":true}"#, 0, true, &[]),
+    (r#"{"files":["@ZA!/logs/*.dlt"]}"#, 0, false, &[]),
+    (r#"{"files":["@ZA!/**/c.dlt"]}"#, 0, false, &[]),
+    (r#"{"files":["@ZA/logs/a.dlt"]}"#, 0, false, &[]),
+    (r#"{"files":["@A","@ZA!/logs/b.dlt"]}"#, 0, false, &[]),
+    (r#"{"files":["@ZA!/logs/a.dlt"],"plugins":[{"name":"FileTransfer"}]}"#, 0, false, &[("FileTransfer", true)]),
+    (r#"{"files":["@ZA!/no/such/member*.dlt"]}"#, 0, false, &[]),
+    (r#"{"files":["@ZA!/nothing"]}"#, 0, false, &[]),
+    (r#"{"files":["@ZA!/readme.txt"]}"#, 0, false, &[]),
+    (r#"{"files":["@ZA!/logs/empty.dlt"]}"#, 0, false, &[]),
+    (r#"{"files":["@ZA!/[bad"]}"#, 0, false, &[]),
+    (r#"{"files":["@ZA!/"]}"#, 0, false, &[]),
+    (r#"{"files":["@ZA!/logs/*.dlt"],"collect":false}"#, 2, false, &[]),
+    (r#"{"files":["@BADZIP"]}"#, 0, false, &[]),
+    (r#"{"files":["@BADZIP!/x*.dlt"]}"#, 0, false, &[]),
+    (r#"{"files":["@ZM"]}"#, 0, false, &[]),
+    (r#"{"files":["@ZH"]}"#, 0, false, &[]),
+    (r#"{"files":["@ZS"]}"#, 0, false, &[]),
+    (r#"{"files":["@ZS"],"sort":true}"#, 0, true, &[]),
+];
 const OPEN_BIG: &[(&str, u8, bool, &[(&str, bool)])] = &[
     (r#"{"files":["@BIG"]}"#, 0, false, &[]),
     (r#"{"files":["@BIG"],"sort":true}"#, 0, true, &[]),
@@ -694,6 +889,12 @@ const OPEN_ERR: &[&str] = &[
     r#"{"files":["@A"],"plugins":3}"#,
     r#"{"files":["@A"],"plugins":[3]}"#,
     r#"@A"#,
+    r#"{"files":["@ZN"]}"#,
+    r#"{"files":["@ZN!/x*.dlt"]}"#,
+    r#"{"files":["@A!/x"]}"#,
+    r#"{"files":["@DIR!/x.dlt"]}"#,
+    r#"{"files":["@ZA!/logs/a.dlt"],"collect":"bla"}"#,
+    r#"{"files":["@ZA",1]}"#,
 ];
 // (body, one_pass, start, end, pos, neg, event, filter class)
 const STREAM_OK: &[(&str, bool, u64, u64, u64, u64, u64, u64)] = &[
@@ -796,6 +997,7 @@ fn open_ok_cmd(rng: &mut Rng, set: &[(&str, u8, bool, &[(&str, bool)])], files: 
 
 struct GenCfg {
     big: bool,
+    archive_bias: bool,
     one_pass: bool,
     len: usize,
     malformed_bias: bool,
@@ -829,6 +1031,11 @@ fn gen_cmd(rng: &mut Rng, cfg: &GenCfg, tr: &Tracker, files: &Files, pos: usize)
             }
         }
     };
+    // right after an archive open (no file stream yet) the out-of-order commands are the interesting ones: open again, close
+    if tr.open && tr.archive && !tr.extract_done && rng.chance(1, 3) {
+        let (frame, orc) = if rng.chance(2, 3) { open_ok_cmd(rng, OPEN_OK, files) } else { open_ok_cmd(rng, OPEN_ARCHIVE, files) };
+        return Cmd { sleep_ms: if rng.chance(1, 2) { 0 } else { rng.range(20, 200) }, wait_lc: 0, frame, orc };
+    }
     let want_open = !tr.open && (pos == 0 || rng.chance(3, 5));
     let choice = if want_open && !cfg.malformed_bias { 0 } else { rng.below(100) };
     let (frame, orc): (String, OrcS) = match choice {
@@ -840,6 +1047,8 @@ fn gen_cmd(rng: &mut Rng, cfg: &GenCfg, tr: &Tracker, files: &Files, pos: usize)
                 open_ok_cmd(rng, OPEN_ONEPASS, files)
             } else if cfg.big && rng.chance(2, 3) {
                 open_ok_cmd(rng, OPEN_BIG, files)
+            } else if rng.chance(if cfg.archive_bias { 4 } else { 1 }, 5) {
+                open_ok_cmd(rng, OPEN_ARCHIVE, files)
             } else {
                 open_ok_cmd(rng, OPEN_OK, files)
             }
@@ -969,12 +1178,18 @@ fn run_session(plan: Plan, scratch: &Path, tag: &str) -> SessionResult {
     };
     let lc_msgs: std::cell::RefCell<std::collections::HashMap<u32, u32>> = Default::default();
     let handle_async = |a: Async, tr: &mut Tracker, pending: &mut Vec<Ev>| match a {
+        Async::Progress(..) => tr.got_progress = true,
         Async::Lifecycles(l) => {
             for (id, n) in l {
                 lc_msgs.borrow_mut().insert(id, n);
             }
         }
         Async::FileInfo(n) => {
+            // messages can only arrive once the extraction result was taken over and the parser thread created
+            if n > 0 && tr.open && tr.archive && !tr.extract_done {
+                tr.extract_done = true;
+                pending.push(Ev::Extracted(tr.exp_files));
+            }
             tr.nmsgs = n;
             pending.push(Ev::Msgs(n));
         }
@@ -997,7 +1212,7 @@ fn run_session(plan: Plan, scratch: &Path, tag: &str) -> SessionResult {
             _ => unreachable!(),
         };
         if dead.is_some() {
-            res.results.push(CmdResult { pre: vec![], nmsgs: tr.nmsgs, reply: None, reply_ms: 0, dead: dead.clone() });
+            res.results.push(CmdResult { state: "dead".into(), pre: vec![], nmsgs: tr.nmsgs, reply: None, reply_ms: 0, dead: dead.clone() });
             res.cmds.push(cmd);
             continue;
         }
@@ -1028,6 +1243,7 @@ fn run_session(plan: Plan, scratch: &Path, tag: &str) -> SessionResult {
                 Rx::Closed(e) => dead = Some(e),
             }
         }
+        let state_at_send = state_label(&tr);
         if dead.is_none() {
             if let Err(e) = ws.write_message(Message::Text(cmd.frame.clone())) {
                 dead = Some(format!("write: {}", e));
@@ -1051,6 +1267,15 @@ fn run_session(plan: Plan, scratch: &Path, tag: &str) -> SessionResult {
             }
         }
         let reply_ms = t0.elapsed().as_millis();
+        // a refused open that shows the extracted files proves that the extraction was taken over before it
+        if let Some(r) = &reply {
+            if tr.open && tr.archive && !tr.extract_done && tr.exp_files > 0 && r.starts_with("err: open ") && r.ends_with("is open. close first!") {
+                if r.matches("DltFileInfos {").count() as u32 == tr.exp_files {
+                    tr.extract_done = true;
+                    pending.push(Ev::Extracted(tr.exp_files));
+                }
+            }
+        }
         let pre = std::mem::take(&mut pending);
         let nmsgs = tr.nmsgs;
         if let Some(r) = &reply {
@@ -1060,7 +1285,7 @@ fn run_session(plan: Plan, scratch: &Path, tag: &str) -> SessionResult {
         } else {
             res.violations.push(("one_reply".into(), format!("frame {:?}: no reply ({})", cmd.frame, dead.clone().unwrap_or_default())));
         }
-        res.results.push(CmdResult { pre, nmsgs, reply, reply_ms, dead: dead.clone() });
+        res.results.push(CmdResult { state: state_at_send.clone(), pre, nmsgs, reply, reply_ms, dead: dead.clone() });
         res.cmds.push(cmd);
     }
     // late frames: an additional reply would be a second answer to some command
@@ -1105,8 +1330,9 @@ fn record(sink: &mut Sink, res: &SessionResult, kind: &str) {
         let pre: Vec<String> = r.pre.iter().map(|e| match e {
             Ev::Msgs(n) => format!("TMsgs {}", n),
             Ev::Done(id) => format!("TDone {}", id),
+            Ev::Extracted(n) => format!("TExtracted {}", n),
         }).collect();
-        items.push(format!("it {} {} {}", clist(&pre), cstr(&c.frame), c.orc.coq(r.nmsgs)));
+        items.push(format!("it {} {} {}", clist(&pre), cstr(&c.frame), c.orc.coq(r.nmsgs, &c.frame)));
         let o = match &r.reply {
             Some(s) => match classify_reply(s) {
                 Some(o) => {
@@ -1121,6 +1347,12 @@ fn record(sink: &mut Sink, res: &SessionResult, kind: &str) {
             },
             None => O::T(vec![O::L(9)]),
         };
+        if r.reply.is_some() {
+            tags.push(format!("sx:{}:{}", r.state, cmd_label(&c.frame)));
+        }
+        if r.pre.iter().any(|e| matches!(e, Ev::Extracted(_))) {
+            tags.push("event_extracted".into());
+        }
         if r.pre.iter().any(|e| matches!(e, Ev::Done(_))) {
             tags.push("event_query_done".into());
         }
@@ -1158,7 +1390,8 @@ fn record(sink: &mut Sink, res: &SessionResult, kind: &str) {
     let nontrivial = n_ok_open >= 1 && n_streams >= 1 && res.cmds.len() >= 5;
     let case_json = json!({
         "cmds": res.cmds.iter().map(|c| json!({"sleep_ms": c.sleep_ms, "wait_lc": c.wait_lc, "frame": c.frame, "orc": c.orc.json()})).collect::<Vec<_>>(),
-        "note": "frames contain absolute paths of the generated files; on replay the path prefix is rewritten",
+        "note": "frames contain absolute paths of the generated files; on replay the scratch directory is rewritten",
+        "scratch": SCRATCH.get().cloned().unwrap_or_default(),
         "replies": res.results.iter().map(|r| json!(r.reply)).collect::<Vec<_>>(),
         "reply_ms": res.results.iter().map(|r| json!(r.reply_ms as u64)).collect::<Vec<_>>(),
         "stderr_panic": res.stderr_panic,
@@ -1364,6 +1597,18 @@ fn corpus(files: &Files) -> Vec<(&'static str, Vec<Cmd>)> {
             ),
         ),
         (
+            "kf_one_pass_late_query",
+            fixed(
+                &[
+                    (0, r#"open {"files":["@A"],"collect":"one_pass_streams"}"#, open_1p.clone()),
+                    (0, "resume", OrcS::None),
+                    (400, r#"query {"one_pass":true,"window":[0,2]}"#, st(true, 0, 2, 0)),
+                    (300, "pause", OrcS::None),
+                ],
+                files,
+            ),
+        ),
+        (
             "kf_one_pass_window",
             fixed(
                 &[
@@ -1377,6 +1622,204 @@ fn corpus(files: &Files) -> Vec<(&'static str, Vec<Cmd>)> {
             ),
         ),
     ]
+}
+
+/// builder for fixed histories with predictable stream ids (fresh process: ids count from 1)
+struct B {
+    v: Vec<(u64, String, OrcS)>,
+    next: u32,
+}
+impl B {
+    fn c(&mut self, sleep: u64, frame: &str, orc: OrcS) {
+        self.v.push((sleep, frame.to_string(), orc));
+    }
+    /// stream / query with an unfiltered window; returns the id it gets (the counter also advances when a
+    /// non-one-pass request is refused in one-pass mode)
+    fn stream(&mut self, cmd: &str, one_pass: bool, ws: u64, we: u64, consumes_id: bool) -> u32 {
+        let body = format!(r#"{{"window":[{},{}],"binary":true{}}}"#, ws, we, if one_pass { r#","one_pass":true"# } else { "" });
+        self.v.push((0, format!("{} {}", cmd, body), OrcS::Stream(Some((one_pass, ws, we, 0, 0, 0, 0)))));
+        let id = self.next;
+        if consumes_id {
+            self.next += 1;
+        }
+        id
+    }
+    fn window(&mut self, id: u32, w: &str) -> u32 {
+        self.v.push((0, format!("stream_change_window {} {}", id, w), OrcS::Id(false)));
+        let n = self.next;
+        self.next += 1;
+        n
+    }
+}
+
+/// every command in one state of the session model.  `establish` brings a fresh connection into the state (no
+/// stream exists, no id was consumed); `mode`: 0 streams allowed, 1 one-pass (only one_pass streams), 2 no streams
+fn sweep_cmds(b: &mut B, mode: u8) {
+    b.c(0, "sweep_unknown_command x", OrcS::None);
+    b.c(0, r#"fs {"cmd":"stat","path":"@DIR"}"#, OrcS::Json(3, String::new(), true));
+    b.c(0, r#"plugin_cmd {"name":"nobody","cmd":"x"}"#, OrcS::Json(3, "nobody".into(), false));
+    b.c(0, "stop 99", OrcS::Id(false));
+    b.c(0, "stream_change_window 99 1,2", OrcS::Id(false));
+    b.c(0, "stream_binary_search 99 time_ms=1", OrcS::Id(false));
+    b.c(0, "stream_search 99 {}", OrcS::Id(true));
+    match mode {
+        2 => {
+            b.stream("stream", false, 0, 3, false);
+            b.stream("query", false, 0, 2, false);
+        }
+        1 => {
+            b.stream("stream", false, 0, 3, true); // refused (only one_pass streams), the id is consumed
+            let a = b.stream("stream", true, 0, 3, true);
+            b.c(0, &format!("stream_binary_search {} time_ms=5", a), OrcS::Id(false));
+            b.c(0, &format!("stream_search {} {{}}", a), OrcS::Id(true));
+            b.stream("query", true, 0, 2, true);
+            b.c(0, &format!("stop {}", a), OrcS::Id(false));
+            b.c(0, &format!("stop {}", a), OrcS::Id(false));
+        }
+        _ => {
+            let a = b.stream("stream", false, 0, 3, true);
+            b.c(0, &format!("stream_binary_search {} time_ms=5", a), OrcS::Id(false));
+            b.c(0, &format!("stream_search {} {{}}", a), OrcS::Id(true));
+            let a2 = b.window(a, "0,5");
+            b.c(0, &format!("stream_change_window {} 1,2", a), OrcS::Id(false)); // the old id is gone
+            b.stream("query", false, 0, 2, true);
+            b.c(0, &format!("stop {}", a2), OrcS::Id(false));
+            b.c(0, &format!("stop {}", a2), OrcS::Id(false)); // stopped: not usable any more
+            b.c(0, &format!("stream_search {} {{}}", a2), OrcS::Id(true));
+        }
+    }
+}
+
+fn state_sweeps(files: &Files) -> Vec<(&'static str, Vec<Cmd>)> {
+    let open_small = (r#"open {"files":["@A"]}"#, OrcS::Open(Some((0u8, false, vec![]))));
+    let fin = |b: B| -> Vec<Cmd> { b.v.into_iter().map(|(s, f, o)| Cmd { sleep_ms: s, wait_lc: 0, frame: files.subst(&f), orc: o }).collect() };
+    let mut out = vec![];
+    // closed
+    {
+        let mut b = B { v: vec![], next: 1 };
+        sweep_cmds(&mut b, 0);
+        b.c(0, "pause", OrcS::None);
+        b.c(0, "resume", OrcS::None);
+        b.c(0, "close", OrcS::None);
+        b.c(0, open_small.0, open_small.1.clone());
+        b.c(0, "close", OrcS::None);
+        out.push(("sweep_closed", fin(b)));
+    }
+    // open states in which streams are possible: (name, establish, paused)
+    let est: Vec<(&'static str, Vec<(u64, &str, OrcS)>, bool)> = vec![
+        ("sweep_parsed", vec![(0, open_small.0, open_small.1.clone()), (300, "sweep_wait", OrcS::None)], false),
+        ("sweep_parsing", vec![(0, r#"open {"files":["@HUGE"]}"#, OrcS::Open(Some((0, false, vec![]))))], false),
+        ("sweep_paused", vec![(0, open_small.0, open_small.1.clone()), (300, "pause", OrcS::None)], true),
+        ("sweep_paused_at_once", vec![(0, r#"open {"files":["@BIG"]}"#, OrcS::Open(Some((0, false, vec![])))), (0, "pause", OrcS::None)], true),
+        ("sweep_arch_no_streams", vec![(0, r#"open {"files":["@ZA!/no/such/member*.dlt"]}"#, OrcS::Open(Some((0, false, vec![])))), (200, "sweep_wait", OrcS::None)], false),
+        ("sweep_arch_no_streams_at_once", vec![(0, r#"open {"files":["@BADZIP"]}"#, OrcS::Open(Some((0, false, vec![]))))], false),
+        ("sweep_arch_nondlt_member", vec![(0, r#"open {"files":["@ZA!/readme.txt"],"sort":true}"#, OrcS::Open(Some((0, true, vec![]))))], false),
+    ];
+    for (name, e, paused) in est {
+        let mut b = B { v: vec![], next: 1 };
+        for (s, f, o) in &e {
+            b.c(*s, f, o.clone());
+        }
+        b.c(0, r#"open {"files":["@B"]}"#, OrcS::Open(Some((0, false, vec![]))));
+        sweep_cmds(&mut b, 0);
+        b.c(0, r#"open {"files":["@ZA"]}"#, OrcS::Open(Some((0, false, vec![]))));
+        if paused {
+            for c in ["pause", "resume", "pause", "close"] {
+                b.c(0, c, OrcS::None);
+            }
+        } else {
+            for c in ["resume", "pause", "resume", "close"] {
+                b.c(0, c, OrcS::None);
+            }
+        }
+        b.c(0, open_small.0, open_small.1.clone());
+        b.c(0, "close", OrcS::None);
+        out.push((name, fin(b)));
+    }
+    // collect:false
+    {
+        let mut b = B { v: vec![], next: 1 };
+        b.c(0, r#"open {"files":["@A"],"collect":false}"#, OrcS::Open(Some((2, false, vec![]))));
+        b.c(0, open_small.0, open_small.1.clone());
+        sweep_cmds(&mut b, 2);
+        for c in ["resume", "pause", "resume", "close"] {
+            b.c(0, c, OrcS::None);
+        }
+        out.push(("sweep_collect_none", fin(b)));
+    }
+    // one pass, paused (its initial state)
+    {
+        let mut b = B { v: vec![], next: 1 };
+        let o1 = OrcS::Open(Some((1, false, vec![])));
+        b.c(0, r#"open {"files":["@A"],"collect":"one_pass_streams"}"#, o1.clone());
+        b.c(0, open_small.0, open_small.1.clone());
+        sweep_cmds(&mut b, 1);
+        b.c(0, "pause", OrcS::None);
+        b.c(0, "close", OrcS::None);
+        // resume without any stream, then the harmless commands while it runs
+        b.c(0, r#"open {"files":["@A"],"collect":"one_pass_streams"}"#, o1);
+        b.c(0, "resume", OrcS::None);
+        b.c(150, "sweep_unknown_command x", OrcS::None);
+        b.c(0, r#"fs {"cmd":"stat","path":"@DIR"}"#, OrcS::Json(3, String::new(), true));
+        b.c(0, r#"plugin_cmd {"name":"nobody","cmd":"x"}"#, OrcS::Json(3, "nobody".into(), false));
+        b.c(0, "stop 99", OrcS::Id(false));
+        b.c(0, "stream_change_window 99 1,2", OrcS::Id(false));
+        b.c(0, "stream_binary_search 99 time_ms=1", OrcS::Id(false));
+        b.c(0, "stream_search 99 {}", OrcS::Id(true));
+        b.c(0, open_small.0, open_small.1.clone());
+        b.c(0, "resume", OrcS::None);
+        b.c(0, "pause", OrcS::None);
+        b.c(0, "resume", OrcS::None);
+        b.c(0, "close", OrcS::None);
+        out.push(("sweep_one_pass", fin(b)));
+    }
+    // extraction pending: the window is short (a few passes of 50 ms), so one round per command:
+    // open <slow archive>; [stream]; command; close
+    for (name, rev) in [("sweep_arch_extracting", false), ("sweep_arch_extracting_rev", true)] {
+        let mut b = B { v: vec![], next: 1 };
+        let slow = OrcS::Open(Some((0, false, vec![])));
+        let mut rounds: Vec<u8> = (0..13).collect();
+        if rev {
+            rounds.reverse();
+        }
+        for r in rounds {
+            b.c(0, r#"open {"files":["@ZS"]}"#, slow.clone());
+            match r {
+                0 => b.c(0, open_small.0, open_small.1.clone()),
+                1 => b.c(0, r#"open {"files":["@ZA"]}"#, slow.clone()),
+                2 => b.c(0, "pause", OrcS::None),
+                3 => b.c(0, "resume", OrcS::None),
+                4 => {
+                    b.stream("stream", false, 0, 3, true);
+                }
+                5 => {
+                    b.stream("query", false, 0, 2, true);
+                }
+                6 => {
+                    let a = b.stream("stream", false, 0, 3, true);
+                    b.c(0, &format!("stop {}", a), OrcS::Id(false));
+                }
+                7 => {
+                    let a = b.stream("stream", false, 0, 3, true);
+                    b.window(a, "0,5");
+                }
+                8 => {
+                    let a = b.stream("stream", false, 0, 3, true);
+                    b.c(0, &format!("stream_binary_search {} time_ms=5", a), OrcS::Id(false));
+                }
+                9 => {
+                    let a = b.stream("stream", false, 0, 3, true);
+                    b.c(0, &format!("stream_search {} {{}}", a), OrcS::Id(true));
+                }
+                10 => b.c(0, r#"plugin_cmd {"name":"nobody","cmd":"x"}"#, OrcS::Json(3, "nobody".into(), false)),
+                11 => b.c(0, r#"fs {"cmd":"stat","path":"@DIR"}"#, OrcS::Json(3, String::new(), true)),
+                _ => b.c(0, "sweep_unknown_command x", OrcS::None),
+            }
+            b.c(0, "close", OrcS::None);
+        }
+        out.push((name, fin(b)));
+    }
+    out
 }
 
 /// structured histories under collect:one_pass_streams (ids are predictable in a fresh process): streams
@@ -1425,6 +1868,7 @@ fn main() {
     sink.shard_size = 12;
     let scratch = tempfile::tempdir().unwrap();
     let files = Files::create(scratch.path());
+    let _ = SCRATCH.set(scratch.path().to_str().unwrap().to_string());
 
     if let Some(p) = &a.replay {
         let v = read_replay(p);
@@ -1434,7 +1878,14 @@ fn main() {
             .as_array()
             .unwrap()
             .iter()
-            .map(|x| Cmd { sleep_ms: x["sleep_ms"].as_u64().unwrap(), wait_lc: x["wait_lc"].as_u64().unwrap_or(0) as u32, frame: rewrite_paths(x["frame"].as_str().unwrap(), &files), orc: OrcS::from_json(&x["orc"]) })
+            .map(|x| {
+                let f = x["frame"].as_str().unwrap();
+                let frame = match c["scratch"].as_str() {
+                    Some(old) if !old.is_empty() => f.replace(old, files.dir.to_str().unwrap()),
+                    _ => rewrite_paths(f, &files),
+                };
+                Cmd { sleep_ms: x["sleep_ms"].as_u64().unwrap(), wait_lc: x["wait_lc"].as_u64().unwrap_or(0) as u32, frame, orc: OrcS::from_json(&x["orc"]) }
+            })
             .collect();
         let res = run_session(Plan::Fixed(cmds), scratch.path(), "replay");
         record(&mut sink, &res, "replay");
@@ -1453,6 +1904,9 @@ fn main() {
         for (name, cmds) in corpus(&files) {
             plans.push((name.to_string(), Plan::Fixed(cmds)));
         }
+        for (name, cmds) in state_sweeps(&files) {
+            plans.push((name.to_string(), Plan::Fixed(cmds)));
+        }
     }
     let mut rng = Rng::new(a.seed);
     for k in 0..n_gen {
@@ -1462,7 +1916,7 @@ fn main() {
             plans.push(("gen_one_pass_scenario".into(), Plan::Fixed(one_pass_scenario(&mut r, &files, k))));
             continue;
         }
-        let cfg = GenCfg { big: kind == 3 || kind == 7, one_pass: kind == 6, len: if kind == 9 { 40 } else { 12 + (k as usize % 3) * 6 }, malformed_bias: kind == 5 };
+        let cfg = GenCfg { big: kind == 3 || kind == 7, archive_bias: kind == 1 || kind == 4, one_pass: kind == 6, len: if kind == 9 { 40 } else { 12 + (k as usize % 3) * 6 }, malformed_bias: kind == 5 };
         plans.push((if cfg.big { "gen_big".into() } else if cfg.malformed_bias { "gen_malformed".into() } else if cfg.one_pass { "gen_one_pass".into() } else { "gen".into() }, Plan::Gen(r, cfg, &files)));
     }
     // run `par` sessions at a time, results in plan order
@@ -1492,6 +1946,31 @@ fn main() {
         }
         record(&mut sink, res, name);
     }
+    // state x command coverage of the session model
+    {
+        let mut reached: std::collections::BTreeMap<String, std::collections::BTreeSet<String>> = Default::default();
+        for (_, res) in &results {
+            for (c, r) in res.cmds.iter().zip(res.results.iter()) {
+                if r.reply.is_some() {
+                    reached.entry(r.state.clone()).or_default().insert(cmd_label(&c.frame).to_string());
+                }
+            }
+        }
+        let mut missing = vec![];
+        for st in ALL_STATES {
+            for c in ALL_CMDS {
+                if !reached.get(*st).map_or(false, |x| x.contains(*c)) {
+                    missing.push(format!("{}:{}", st, c));
+                }
+            }
+        }
+        sink.extra_stats.insert("state_cmd_pairs_reached".into(), json!(reached.values().map(|x| x.len()).sum::<usize>()));
+        sink.extra_stats.insert("state_cmd_pairs_total".into(), json!(ALL_STATES.len() * ALL_CMDS.len()));
+        sink.extra_stats.insert("state_cmd_pairs_missing".into(), json!(missing));
+        if !missing.is_empty() && a.tier != "search" {
+            eprintln!("c15: state x command pairs not reached in this run: {:?}", missing);
+        }
+    }
     sink.extra_stats.insert("sessions".into(), json!(results.len()));
     sink.extra_stats.insert("connect_failed".into(), json!(connect_failed));
     sink.extra_stats.insert("commands".into(), json!(results.iter().map(|r| r.1.cmds.len()).sum::<usize>()));
@@ -1506,7 +1985,7 @@ fn main() {
 /// a recorded frame contains the scratch directory of the recording run: replace `<anything>/<known file>` by this run's path
 fn rewrite_paths(frame: &str, files: &Files) -> String {
     let mut out = frame.to_string();
-    for name in ["a.dlt", "b.dlt", "big.dlt", "huge.dlt", "dense.dlt", "empty.dlt", "nofile.dlt", "bad.zip", "sub"] {
+    for name in ["a.dlt", "b.dlt", "big.dlt", "huge.dlt", "dense.dlt", "arch.zip", "slow.zip", "hostile.zip", "mv.zip.001", "nofile.zip", "empty.dlt", "nofile.dlt", "bad.zip", "sub"] {
         // occurrences look like "/tmp/.tmpXXXX/a.dlt"
         let mut res = String::new();
         let mut rest = out.as_str();
